@@ -16,7 +16,7 @@ import time
 VERIF = "/verif"
 REPO = os.environ.get("VERIF_E2E_REPO", "/repo")  # mutant runs point this at a scratch worktree
 WORK = f"{VERIF}/work"
-E2E = f"{VERIF}/engines/e2e"
+E2E = os.path.dirname(os.path.abspath(__file__))  # a scratch copy of this directory is self-contained
 TARGET_REPO = f"{WORK}/target-repo" if REPO == "/repo" else f"{WORK}/target-repo-{hashlib.sha256(REPO.encode()).hexdigest()[:8]}"
 PAVEXC = f"{TARGET_REPO}/release/pavexc"
 BPGEN = f"{WORK}/target-verif/release/bpgen"
